@@ -25,7 +25,48 @@ func (x *Exec) doCall(st *State, c *ssa.CallCommon, pos token.Pos) []Outcome {
 	if x.isNoReturn(c.Value) {
 		return x.noreturnCall(st, fv, args, pos)
 	}
+	if arrs := x.mutatorArrays(c.Value); arrs != nil {
+		// user code that may reconfigure the library's objects through the public API: those arrays are havocked
+		x.trusted["A-cb-init: a CmdInitializer reconfigures commands only through the public API (modelled as an arbitrary change of the declared heap arrays)"] = true
+		for _, n := range arrs {
+			for _, hn := range x.reg.heapOrd {
+				if hn == n || (strings.HasSuffix(n, "*") && strings.HasPrefix(hn, strings.TrimSuffix(n, "*"))) {
+					x.heapHavoc(st, hn, true, st.allocCtr)
+				}
+			}
+		}
+	}
 	return x.callVal(st, fv, args, c, pos)
+}
+
+func (x *Exec) mutatorArrays(v ssa.Value) []string {
+	u, ok := v.(*ssa.UnOp)
+	if !ok || u.Op != token.MUL {
+		return nil
+	}
+	a, ok := u.X.(*ssa.FieldAddr)
+	if !ok {
+		return nil
+	}
+	pt, ok := a.X.Type().Underlying().(*types.Pointer)
+	if !ok {
+		return nil
+	}
+	named, ok := pt.Elem().(*types.Named)
+	if !ok {
+		return nil
+	}
+	st, ok := named.Underlying().(*types.Struct)
+	if !ok {
+		return nil
+	}
+	fname := named.Obj().Name() + "." + st.Field(a.Field).Name()
+	for _, m := range x.cs.Mutators {
+		if m.Name == fname && named.Obj().Pkg().Path() == m.PkgPath {
+			return m.Arrays
+		}
+	}
+	return nil
 }
 
 // isNoReturn: the callee is loaded from a package variable or struct field declared `noreturn` (the process-exit indirection)
@@ -216,6 +257,19 @@ func (x *Exec) callContract(st *State, fn *ssa.Function, con *Contract, args []V
 		if len(x.obls) > n {
 			x.obls[len(x.obls)-1].Callee = key
 		}
+	}
+	// recursion measure: callee's measure at the call must be lexicographically below the caller's measure at its entry
+	if len(con.Decr) > 0 && len(x.curDecr) > 0 {
+		var now []*Term
+		for _, d := range con.Decr {
+			ctx.clause = key + "/decreases"
+			now = append(now, ctx.intExpr(d.E))
+		}
+		n := len(now)
+		if len(x.curDecr) < n {
+			n = len(x.curDecr)
+		}
+		x.obligeSrc(st, "decreases", "call/"+key, lexLess(now[:n], x.curDecr[:n]), pos, con.Decr[0].Src)
 	}
 	// snapshot
 	oldHeap := map[string]*Term{}
